@@ -15,7 +15,7 @@ def base_local(B, o, depth=12):
     while depth > 0 and o["k"] in ("copy", "move"):
         depth -= 1
         l = o["p"]["l"]
-        if B.locals[l].get("name") and not B.locals[l]["name"].startswith("__"):
+        if B.locals[l].get("name") and not B.locals[l]["name"].startswith(("__", "<")):
             return l
         d = B.single_def(l)
         if d is None:
@@ -86,6 +86,13 @@ def run(F, R, tier):
     hrs = R.anchor(HRS, "C05.R3")
     if not hnr or not hrs:
         return
+    # helpers that receive `&mut` of the request / its header map are analysed in place (MIR inlining), so that a step extracted into
+    # a helper is seen exactly like the same step written inline
+    from lib import inline
+    hnr, inl1 = inline.inline_calls(F, hnr, inline.takes_mut_of(["http::Request<", "HeaderMap"]))
+    hrs, inl2 = inline.inline_calls(F, hrs, inline.takes_mut_of(["http::Request<", "HeaderMap"]))
+    for f_ in inl1 + inl2:
+        R.touched(f_)
     B = mir.Body(hnr, F)
     BS = mir.Body(hrs, F)
 
